@@ -1,11 +1,21 @@
 """C11 configuration (see lib/propcfg.py for the meaning of the keys)."""
 CFG = dict(
-    disabled=False,
     models=[("gen", "Gen_Consts"), ("gen", "Gen_Cmp"), ("model", "Values"), ("model", "Cmp"), ("model", "Maps")],
     proofs=[("proofs", "Cmp_proofs"), ("proofs", "Maps_proofs")],
     extract="Extract_Maps", module="maps_model", driver="drv_C11.ml", ocaml_extra=["nathelpers.ml", "zhelpers.ml", "valio.ml"],
-    trusted_base=[],
-    level_text="",
-    level_note="",
-    assumptions=[],
+    trusted_base=[
+        "Go: slices.BinarySearchFunc (its loop is transcribed in Maps.bs_loop), slices.Insert, copy, append on []keyValuePair as list operations; the fixed array of a SmallMap as the list of its first len pairs",
+        "object_MaxSmallMap from the translator (Gen_Consts.v); the key order is the model of object.Cmp (C12, same trusted base)",
+        "ocaml/valio.ml and the Inspect() text of keys/values in ocaml/drv_C11.ml (FormatInt, shortest FormatFloat 'f', strconv.Quote of plain ASCII): driver code, compared with the real Inspect on every case",
+        "hook object.VerifMapPairs (build tag verif): stored pairs of a map in storage order",
+    ],
+    level_text="Proved in Coq for every key order that is a total preorder, instantiated with the model of object.Cmp (a total preorder by C12), for all keys, values and operation sequences (no bound): C11_invariant (Inv := keys strictly increasing /\\ a SmallMap holds at most MaxSmallMap pairs; holds for NewMapSize(n), preserved by every operation); C11_operations_refine (Get, Set, Delete, Append, First, Len, Rest, Range, map literal each equal the operation of a strictly sorted association list with one entry per key class; the stored key object of a class is the first one set); maps_are_finite_maps (lifted over arbitrary sequences of set / get / delete / m+r / l+m / first / rest / range / len / literal: after every operation the result and the whole content in iteration order equal those of the reference, for every size hint, and the run fails exactly where a range is out of bounds); C11_history_independent (two maps with the same content are indistinguishable by any continuation, whatever their representation or history); C11_insertion_order_irrelevant; binary_search_is_linear; C11_reference_is_finite_map (get-after-set, get-after-delete, equivalent keys are one key, sortedness preserved). The theorems are about coq/model/Maps.v (faithful: linear search with early exit, the binary search loop with explicit failure, promotion at the fifth key, Rest/Range demotion, Delete never demoting, Append's two paths, NewMapSize); the model is tied to /repo by exhaustive breadth-first exploration of every reachable map state (representation tag + content) over 5 (quick) / 7 (thorough) key classes of mixed types plus an alias key and an absent key, every operation from every state through the Go API and the extracted model, and by long random sequences over 32 keys; a Go reference map and the same operation through grol source (also keys() and for-iteration) run beside it.",
+    level_note="Trusted: Coq kernel, extraction (ExtrOcamlBasic), OCaml driver, Go harness, translator; axioms: none (Print Assumptions: closed under the global context for all seven theorems). The Go code is modelled, not verified. One defect of the pinned tree was repaired (SmallMap.Append returned a *SmallMap when the right operand was empty) and the repaired code is what is modelled.",
+    assumptions=[
+        "slots of a SmallMap's array at and beyond len are never read by any method and are not modelled",
+        "sharing / capacity of a BigMap's backing array (Rest and Range of a big map alias it) is C06's subject; here maps are values",
+        "Range is only used with 0 <= lo <= hi <= len (evalIndexRangeExpression clamps); outside that the model says GoPanic and the harness does not go there",
+        "the memory guard MustBeOk in Append's large path is not modelled (C09)",
+        "the key order never panics and is a total preorder: C12's theorems (same run of the translator)",
+    ],
 )
